@@ -839,6 +839,8 @@ class _BuiltinMeta(type):
 
     def __instancecheck__(cls, inst):
         if isinstance(inst, Sym):
+            if getattr(inst, "isint", False):
+                return cls._real is _real_int
             return cls._real is _real_float and inst.isreal()
         return isinstance(inst, cls._real)
 
@@ -866,6 +868,8 @@ def _sym_float(x=0.0):
 
 def _sym_int_builtin(x=0, *a):
     if isinstance(x, Sym):
+        if getattr(x, "isint", False):
+            return x
         return core.sym_int(x)
     if isinstance(x, numpy.ndarray) and x.dtype == object and x.size == 1:
         return core.sym_int(x.reshape(-1)[0])
